@@ -550,7 +550,9 @@ class AbsoluteSequence(AbstractSequence):
         Returns: The duration of this sequence.
 
         """
-        return self._messages[-1].time
+        # Messages whose time was edited in place (while iterating) are stored out of time order until the next sort, the
+        # last stored message is then not necessarily the latest one
+        return max(self._messages[-1].time, max(msg.time for msg in self._messages))
 
     def is_channel_consistent(self) -> bool:
         """Checks if the channels of all messages in this sequence are consistent, i.e., the same.
